@@ -21,7 +21,9 @@ for log in sys.argv[1:]:
         p = os.path.join(HOME, "seeded", r["seed"], "meta.json")
         if not os.path.exists(p):
             print("no such seed", r["seed"]); continue
-        if not (r.get("demo_clean_exit") == 0 and r.get("demo_patched_exit") not in (0, None) and r.get("stable_tests_missing") == 0):
+        if r.get("error"):
+            print("ERROR", r); continue
+        if not r.get("regress") and not (r.get("demo_clean_exit") == 0 and r.get("demo_patched_exit") not in (0, None) and r.get("stable_tests_missing") == 0):
             print("NOT CONFIRMED on re-run", r); continue
         m = json.load(open(p))
         if "first_run" not in m:
